@@ -353,7 +353,7 @@ func VerifClosedMain(args []string) int {
 	iw := bufio.NewWriter(io_)
 	defer iw.Flush()
 	atob := func(s string) bool { return s == "1" }
-	runLine := func(line string) string {
+	runLine1 := func(line string) string {
 		t := strings.Fields(line)
 		if len(t) != 10 || t[0] != "cell" {
 			return "bad-op"
@@ -371,6 +371,19 @@ func VerifClosedMain(args []string) int {
 		case <-time.After(20 * time.Second):
 			return "stuck"
 		}
+	}
+	trouble := 0
+	runLine := func(line string) string {
+		// a tree on which calls hang or cells get stuck is reported from the first few cells; executing thousands
+		// more (each one costs a watchdog period) adds nothing
+		if trouble >= 6 {
+			return "skipped"
+		}
+		r := runLine1(line)
+		if r == "stuck" || strings.Contains(r, "hang") {
+			trouble++
+		}
+		return r
 	}
 	if *replay != "" {
 		f, err := os.Open(*replay)
